@@ -30,9 +30,26 @@ func VerifAttachSendQueue(c *Client) func() (pk.Packet, bool) {
 	return q.Pull
 }
 
-type verifSendQueue struct{ items []pk.Packet }
+// VerifAttachSendQueueCtl is VerifAttachSendQueue with two more handles (X06): setFull makes the queue refuse packets
+// (Conn.WritePacket then answers "queue is full") and pending tells how many packets wait to be pulled.
+func VerifAttachSendQueueCtl(c *Client) (pull func() (pk.Packet, bool), setFull func(bool), pending func() int) {
+	q := &verifSendQueue{}
+	c.Conn = &Conn{send: q}
+	return q.Pull, func(b bool) { q.full = b }, func() int { return len(q.items) }
+}
 
-func (q *verifSendQueue) Push(p pk.Packet) bool { q.items = append(q.items, p); return true }
+type verifSendQueue struct {
+	items []pk.Packet
+	full  bool
+}
+
+func (q *verifSendQueue) Push(p pk.Packet) bool {
+	if q.full {
+		return false
+	}
+	q.items = append(q.items, p)
+	return true
+}
 func (q *verifSendQueue) Pull() (p pk.Packet, ok bool) {
 	if len(q.items) == 0 {
 		return p, false
